@@ -26,6 +26,39 @@ def marker_consts(b, op):
     return ints, raw, o
 
 
+def tuple_field_of_call(body, op, call_t, depth=8):
+    """which member (.0 / .1) of the tuple returned by call_t does the operand come from?"""
+    p = op_place(op)
+    for _ in range(depth):
+        if p is None:
+            return None
+        if p['l'] == call_t['dest']['l']:
+            for e in p.get('p', []):
+                if isinstance(e, dict) and 'i' in e:
+                    return e['i']
+            return None
+        ds = [d for d in body.defs().get(p['l'], []) if d[0] in body.live_blocks() and not body.is_cleanup(d[0])]
+        if len(ds) != 1:
+            return None
+        d = ds[0]
+        if d[2] == 'assign' and d[3]['k'] == 'use':
+            np_ = op_place(d[3]['op'])
+        elif d[2] == 'assign' and d[3]['k'] in ('ref', 'rawptr'):
+            np_ = d[3]['place']
+        elif d[2] == 'call' and d[3].get('args'):
+            np_ = op_place(d[3]['args'][0])
+        else:
+            return None
+        if np_ is None:
+            return None
+        # keep looking at the same member if the projection was on this hop
+        for e in (p.get('p') or []):
+            if isinstance(e, dict) and 'i' in e and np_['l'] == call_t['dest']['l'] and not any(isinstance(x, dict) and 'i' in x for x in np_.get('p', [])):
+                np_ = dict(np_, p=list(np_.get('p', [])) + [e])
+        p = np_
+    return None
+
+
 def run(ctx):
     # the fingerprint in the header is the fingerprint of the fullnames the parser resolves (shared with C07 / C08)
     from . import c07
@@ -96,7 +129,20 @@ def run(ctx):
                         ro = origin(ch, c['args'][1])
                         if o.params() == {1}:
                             rng = tuple(sorted(x for x in ro.consts() if isinstance(x, int)))
-            other = [o for o, op in sides if not o.params() == {1} or not any(call_matches(c, ['Index::index', 'Index<I>>::index', 'index::Index<I>>::index']) for c in o.calls)]
+            # the same two ranges obtained with `header.split_at(k)`: .0 is 0..k, .1 is k..10
+            via_split = None
+            if rng is None:
+                for o, op in sides:
+                    for c in o.calls:
+                        if call_matches(c, ['slice::<impl [T]>::split_at']) and origin(ch, c['args'][0]).params() == {1}:
+                            ko = origin(ch, c['args'][1])
+                            ks = [x for x in ko.consts() if isinstance(x, int)]
+                            k = ks[0] if len(ks) == 1 and not ko.params() else (2 if 'len' in ko.flags and not ko.params() and any('c301' in str(a[1]) or a[1] in (195, 1) for a in ko.atoms if a[0] == 'const') else None)
+                            fi = tuple_field_of_call(ch, op, c)
+                            if k is not None and fi in (0, 1):
+                                rng = (0, k) if fi == 0 else (k, 10)
+                                via_split = o
+            other = [o for o, op in sides if o is not via_split and (not o.params() == {1} or not any(call_matches(c, ['Index::index', 'Index<I>>::index', 'index::Index<I>>::index']) for c in o.calls))]
             sw = t.get('target')
             while sw is not None and ch.term(sw)['k'] == 'goto':
                 sw = ch.term(sw)['target']
